@@ -409,12 +409,12 @@ example : (run ⟨fun n => n⟩ (St.init 1 9092) (demo.take 15)).closed = false 
 in which the callback of a fire-and-forget request cancels a queued request while the queue is written —
 the cancelled request is not written (the behaviour after commit e52a354) — accepted by `r10`. -/
 example : ((Afkak.BrokerClientR.traceR ⟨fun _ => 1⟩ (Afkak.BrokerClientR.StR.init 1 9092)
-      [.make 1 false (some (.cancel 2)), .make 2 false none, .make 3 true none, .flat .connOk]).map (·.2)) =
+      [.make 1 false (some [.cancel 2]), .make 2 false none, .make 3 true none, .flat .connOk]).map (·.2)) =
     [[.ob (.connect 1 9092), .made 0 1], [.made 1 2], [.made 2 3],
      [.ob (.write 0 0 1), .ob (.fire 0 1 .none), .hookBegin 0, .ob (.fire 1 2 (.err .cancelled)), .hookEnd,
       .ob (.write 0 2 3)]] := by decide +kernel
 example : r10 (Afkak.BrokerClientR.traceR ⟨fun _ => 1⟩ (Afkak.BrokerClientR.StR.init 1 9092)
-      [.make 1 false (some (.cancel 2)), .make 2 false none, .make 3 true none, .flat .connOk]) = true := by
+      [.make 1 false (some [.cancel 2]), .make 2 false none, .make 3 true none, .flat .connOk]) = true := by
   decide +kernel
 
 end Afkak.Props.C10
